@@ -181,6 +181,22 @@ class Compiler:
                 "Function or program too large (a jump target exceeds 65535)"
             )
 
+    def _emit_store_variable(self, name: str) -> None:
+        """Store the top of the stack into variable `name` (cell, local, closure or global)."""
+        cell_slot = self._get_cell_var(name)
+        if cell_slot is not None:
+            self._emit(OpCode.STORE_CELL, cell_slot)
+            return
+        slot = self._get_local(name)
+        if slot is not None:
+            self._emit(OpCode.STORE_LOCAL, slot)
+            return
+        closure_slot = self._get_free_var(name)
+        if closure_slot is not None:
+            self._emit(OpCode.STORE_CLOSURE, closure_slot)
+            return
+        self._emit(OpCode.STORE_NAME, self._add_name(name))
+
     def _take_loop_label(self) -> Optional[str]:
         """Label attached to the loop statement being compiled (for 'continue label')."""
         label, self._pending_loop_label = self._pending_loop_label, None
@@ -590,20 +606,10 @@ class Compiler:
                 name = decl.id.name
                 if self._in_function:
                     self._add_local(name)
-                    slot = self._get_local(name)
-                    self._emit(OpCode.STORE_LOCAL, slot)
-                else:
-                    idx = self._add_name(name)
-                    self._emit(OpCode.STORE_NAME, idx)
+                self._emit_store_variable(name)
                 self._emit(OpCode.POP)
             elif isinstance(node.left, Identifier):
-                name = node.left.name
-                slot = self._get_local(name)
-                if slot is not None:
-                    self._emit(OpCode.STORE_LOCAL, slot)
-                else:
-                    idx = self._add_name(name)
-                    self._emit(OpCode.STORE_NAME, idx)
+                self._emit_store_variable(node.left.name)
                 self._emit(OpCode.POP)
             elif isinstance(node.left, MemberExpression):
                 # for (obj.prop in ...) or for (obj[key] in ...)
@@ -659,20 +665,10 @@ class Compiler:
                 name = decl.id.name
                 if self._in_function:
                     self._add_local(name)
-                    slot = self._get_local(name)
-                    self._emit(OpCode.STORE_LOCAL, slot)
-                else:
-                    idx = self._add_name(name)
-                    self._emit(OpCode.STORE_NAME, idx)
+                self._emit_store_variable(name)
                 self._emit(OpCode.POP)
             elif isinstance(node.left, Identifier):
-                name = node.left.name
-                slot = self._get_local(name)
-                if slot is not None:
-                    self._emit(OpCode.STORE_LOCAL, slot)
-                else:
-                    idx = self._add_name(name)
-                    self._emit(OpCode.STORE_NAME, idx)
+                self._emit_store_variable(node.left.name)
                 self._emit(OpCode.POP)
             else:
                 raise NotImplementedError(
